@@ -576,6 +576,21 @@ type c11SelfFlat struct {
 }
 type c11SelfEmb struct{ C11SelfMix }
 type c11SelfEmb2 struct{ C11SelfMid }
+
+// the mixin is not the struct's first field (its address differs from the component's)
+type c11SelfEmbPad struct {
+	Pad int
+	C11SelfMix
+}
+type c11SelfEmbPadP struct {
+	definition.WirePrimaryComponent
+	Pad int
+	C11SelfMix
+}
+
+func (*c11SelfEmbPad) ID() string  { return "holder" }
+func (*c11SelfEmbPadP) ID() string { return "holder" }
+
 type c11SelfFlatP struct {
 	definition.WirePrimaryComponent
 	W  scen.Iface   `wire:""`
@@ -617,6 +632,10 @@ func c11SelfView(h any) string {
 	case *c11SelfEmbP:
 		w, wo, ws = x.W, x.WO, x.WS
 	case *c11SelfEmb2P:
+		w, wo, ws = x.W, x.WO, x.WS
+	case *c11SelfEmbPad:
+		w, wo, ws = x.W, x.WO, x.WS
+	case *c11SelfEmbPadP:
 		w, wo, ws = x.W, x.WO, x.WS
 	}
 	id := func(v scen.Iface) string {
@@ -755,9 +774,9 @@ func c11Static(c *core.Ctx) {
 				return c11SelfView(h), o
 			}
 			var flat any = &c11SelfFlat{}
-			embs := []any{&c11SelfEmb{}, &c11SelfEmb2{}}
+			embs := []any{&c11SelfEmb{}, &c11SelfEmb2{}, &c11SelfEmbPad{}}
 			if primary {
-				flat, embs = &c11SelfFlatP{}, []any{&c11SelfEmbP{}, &c11SelfEmb2P{}}
+				flat, embs = &c11SelfFlatP{}, []any{&c11SelfEmbP{}, &c11SelfEmb2P{}, &c11SelfEmbPadP{}}
 			}
 			want, wo := start(flat)
 			for depth, e := range embs {
